@@ -23,12 +23,14 @@ TABLE: List[Entry] = [
     ("R-EVENTS-EXACT", None, "MAX-event-without-store", {"C04"}),
     ("R-EVENTS-EXACT", None, "GROUND-event-without-change", {"C04"}),
     # a change without its event leaves a watcher asleep: validity / fixpoint, not termination
-    ("R-EVENTS-EXACT", None, None, {"C01", "C08"}),
-    ("R-WRITEBACK-MONO", None, "no-emptiness-check", {"C01", "C08", "C13"}),
-    ("R-WRITEBACK-MONO", None, None, {"C01", "C08", "C04", "C13"}),
-    ("R-QUEUE-DRAIN", None, None, {"C01", "C08", "C13"}),
+    ("R-EVENTS-EXACT", None, None, {"C01", "C02", "C08"}),
+    ("R-WRITEBACK-MONO", None, "no-emptiness-check", {"C01", "C02", "C08", "C13"}),
+    ("R-WRITEBACK-MONO", None, None, {"C01", "C02", "C08", "C04", "C13"}),
+    ("R-QUEUE-DRAIN", None, None, {"C01", "C02", "C08", "C13"}),
     ("R-QUEUE-WRITERS", None, None, {"C01", "C08", "C13"}),
-    ("R-OFFSET-ROUNDTRIP", "bound_consistency", None, {"C01", "C13", "C08"}),
+    ("R-OFFSET-ROUNDTRIP", "bound_consistency", None, {"C01", "C02", "C13", "C08"}),
+    ("R-ANNOUNCE", "bound_consistency", None, {"C01", "C02", "C08"}),
+    ("R-TRIGGER-JOIN", None, None, {"C01", "C02", "C08", "C13"}),
     # the tightening primitives: a wrong bound gives a wrong optimum / no termination, never an invalid assignment
     # (C04: a bound that does not move strictly past the incumbent lets the same solution be found for ever)
     ("R-OFFSET-ROUNDTRIP", "decrease_max", None, {"C03", "C13", "C04"}),
@@ -67,7 +69,7 @@ TABLE: List[Entry] = [
     ("R-ANNOUNCE", "backtrack", "replay-row", {"C02", "C07", "C09"}),
     ("R-ANNOUNCE", "backtrack", None, {"C02", "C09"}),
     # ---- wake-up primitive ---------------------------------------------------------------------------------
-    ("R-WAKEUP", None, None, {"C01", "C08"}),
+    ("R-WAKEUP", None, None, {"C01", "C02", "C08"}),
     # ---- optimisation loop: which clauses are also termination conditions
     ("R-TIGHTEN", None, "reset-then-tighten", {"C03", "C04"}),
     ("R-TIGHTEN", None, "emptiness-guard", {"C03", "C04"}),
@@ -75,9 +77,9 @@ TABLE: List[Entry] = [
     ("R-TIGHTEN", None, "tighten-args", {"C03", "C04"}),
     ("R-TIGHTEN", None, None, {"C03"}),
     # ---- shaving: the loop's own progress is also a termination matter
-    ("R-SHAVE", None, "round-without-probe", {"C04", "C10"}),
-    ("R-SHAVE", None, "no-advance-after-failed-probe", {"C04", "C10"}),
-    ("R-SHAVE", None, None, {"C10"}),
+    ("R-SHAVE", None, "round-without-probe", {"C02", "C04", "C10"}),
+    ("R-SHAVE", None, "no-advance-after-failed-probe", {"C02", "C04", "C10"}),
+    ("R-SHAVE", None, None, {"C02", "C10"}),  # C02: the same multiset of solutions with shaving as with plain bound consistency
     # ---- capacity ------------------------------------------------------------------------------------------
     ("R-CAPACITY", None, None, {"C16", "C19", "C10"}),
 ]
